@@ -27,3 +27,42 @@ Theorem C14_continuation_deterministic : forall (A : Type) (p q : prog A) (t u :
   p = q -> t = u -> run_tape p t = run_tape q u.
 Proof. intros A p q t u -> ->. reflexivity. Qed.
 Print Assumptions C14_continuation_deterministic.
+
+(* repeated snapshot-restore cycles: any number of them gives back the state *)
+Theorem C14_repeated_cycles : forall n modes st,
+  List.length modes = List.length st ->
+  forallb (fun '(m, v) => field_ok m v) (combine modes st) = true ->
+  Nat.iter n (cycle modes) st = st.
+Proof. exact repeated_cycles. Qed.
+Print Assumptions C14_repeated_cycles.
+
+(* pooled scratch capacity: a count-only pool is restored as exactly as many buffers, all empty,
+   whatever the buffers held at the snapshot point *)
+Theorem C14_pool_capacity_restored : forall b,
+  exists b', restore_field (snap_field FCountOnly (VPool b)) = VPool b'
+             /\ List.length b' = List.length b
+             /\ forallb (fun x => match x with [] => true | _ => false end) b' = true.
+Proof. exact pool_capacity_restored. Qed.
+Print Assumptions C14_pool_capacity_restored.
+
+(* the round-trip condition is exact for the two modes the source uses: a field survives iff it is
+   serialised in full or is a count-only pool of empty buffers *)
+Theorem C14_field_roundtrip_iff : forall m v, m = FFull \/ m = FCountOnly ->
+  (restore_field (snap_field m v) = v <-> field_ok m v = true).
+Proof. exact field_roundtrip_iff. Qed.
+Print Assumptions C14_field_roundtrip_iff.
+
+(* necessity: a pool holding a non-empty buffer at the snapshot point is not restored (so C18's
+   "returned, emptied" is a premise, checked by the pool oracle at every call boundary) *)
+Theorem C14_dirty_pool_not_restored : forall b,
+  forallb (fun x => match x with [] => true | _ => false end) b = false ->
+  restore_field (snap_field FCountOnly (VPool b)) <> VPool b.
+Proof. exact dirty_pool_not_restored. Qed.
+Print Assumptions C14_dirty_pool_not_restored.
+
+(* necessity: "serialised in full" is the only field mode under which every value survives, so a
+   field switched to skip / count-only / a custom serialiser breaks C14_source_fields_ok for a reason *)
+Theorem C14_only_full_mode_is_lossless : forall m,
+  (forall v, restore_field (snap_field m v) = v) <-> m = FFull.
+Proof. exact only_full_mode_is_lossless. Qed.
+Print Assumptions C14_only_full_mode_is_lossless.
